@@ -390,6 +390,7 @@ class Instr:
         self.mod.zlib = self.z
         for enc in self.reg.algorithms["enc"].values():
             enc.decrypt = self._wrap_decrypt(enc, type(enc).decrypt)
+            enc.encrypt = self._wrap_encrypt(enc, type(enc).encrypt)
         self.zipmodel.decompress = self._wrap_decompress(type(self.zipmodel).decompress)
         return self
 
@@ -397,6 +398,7 @@ class Instr:
         self.mod.zlib = zlib
         for enc in self.reg.algorithms["enc"].values():
             enc.__dict__.pop("decrypt", None)
+            enc.__dict__.pop("encrypt", None)
         self.zipmodel.__dict__.pop("decompress", None)
         self.zipmodel.__dict__.pop("compress", None)
 
@@ -414,6 +416,12 @@ class Instr:
             self.z.log.append(("decrypt", enc.name, ("ok", r)))
             return r
         return decrypt
+
+    def _wrap_encrypt(self, enc, f):
+        def encrypt(plaintext, *a, **k):
+            self.z.log.append(("encrypt", enc.name, bytes(plaintext)))
+            return f(enc, plaintext, *a, **k)
+        return encrypt
 
     def _wrap_decompress(self, f):
         def decompress(s):
@@ -1216,6 +1224,122 @@ def run(ctx):
                     check_jwe(token, key, p, len(p), "%s/%s/leading-octet" % (enc.name, ser),
                               {"enc": enc.name, "ser": ser, "data": d, "how": "impl"})
         tick("G2")
+        # ---- G3. operation SEQUENCES on message objects with zip=DEF: the same object encrypted 2-3 times
+        # (same / other recipients), every token decrypted (twice, into fresh objects); the object's own
+        # plaintext / headers / aad must be what the caller put there
+        import copy
+        from joserfc.rfc7516.message import perform_encrypt
+        from joserfc.rfc7516.compact import represent_compact
+        from joserfc.rfc7516.registry import default_registry
+
+        def snapshot(obj):
+            return {"plaintext": bytes(obj.plaintext) if obj.plaintext is not None else None,
+                    "protected": copy.deepcopy(obj.protected),
+                    "unprotected": copy.deepcopy(getattr(obj, "unprotected", None)),
+                    "aad": copy.deepcopy(getattr(obj, "aad", None)),
+                    "recipient_headers": [copy.deepcopy(r.header) for r in obj.recipients]}
+
+        def seq_step(obj, produce, key, p, d, label, step, snap):
+            """one encrypt of obj (+ decrypt of the result, twice); -> nothing"""
+            ins.reset()
+            r = call(produce)
+            logx = list(ins.log)
+            bump("seq_encrypt")
+            ctx.note_case(("seq", label, step, json.dumps(d, sort_keys=True)[:200]))
+            rep = {"fn": "sequence", "label": label, "step": step, "data": d}
+            if r[0] != "ok":
+                ctx.violation({"kind": "sequence-encrypt-raises"}, "%s: encrypt #%d of the same object raised %s" % (
+                    label, step, exn_class(r[1])), rep)
+                return
+            after = snapshot(obj)
+            diff = [k for k in snap if snap[k] != after[k]]
+            if diff:
+                what = diff[0]
+                ctx.violation({"kind": "object-mutated", "field": what},
+                              "%s: encrypt #%d changed the caller's message object: %s %s" % (
+                                  label, step, what,
+                                  "now %d octets (was %d)" % (len(after[what] or b""), len(snap[what] or b""))
+                                  if what == "plaintext" else "%r -> %r" % (snap[what], after[what])), rep)
+            # correspondence with the model of the zip step
+            comp = [e for e in logx if e[0] == "compress"]
+            encs_ = [e for e in logx if e[0] == "encrypt"]
+            spf = spf_for({"data": d})
+            if len(encs_) == 1 and len(comp) <= 1:
+                psp, asp, esp = spf(p), spf(after["plaintext"] or b""), spf(encs_[0][2])
+                zsp = spf(comp[0][3]) if comp else ("lit", b"")
+                zarg_ok = (not comp) or comp[0][1] == p
+                if None in (psp, asp, esp, zsp):
+                    skipped_big[0] += 1
+                else:
+                    zt = "None" if "zip" not in snap["protected"] else '(Some "%s"%%string)' % snap["protected"]["zip"]
+                    add("CEncTail None %s %s %s %s %s %s" % (zt, spec_term(psp), spec_term(zsp if zarg_ok else ("lit", b"")),
+                                                          c_bool(bool(comp)), spec_term(esp), spec_term(asp)),
+                        ("enctail", label, step, d))
+            token = r[1]
+            for again in (1, 2):
+                tk = token if isinstance(token, str) else json.loads(json.dumps(token))
+                check_jwe(tk, key, p if len(p) <= LIMIT else None, len(p), "%s/#%d/decrypt%d" % (label, step, again),
+                          {"sequence": label, "step": step, "data": d, "enc": snap["protected"]["enc"], "ser": "seq"},
+                          coq=(again == 1))
+
+        seq_encs = encs if not ctx.quick else rng.sample(encs, 2)
+        seq_data = [{"cls": "const", "c": cbyte, "n": 80000}, {"cls": "periodic", "pat": pat.hex(), "n": LIMIT},
+                    {"cls": "lcg", "n": rng.randrange(200, 1400)},
+                    {"cls": "lit", "hex": b'{"iss":"a","sub":"b","n":[1,2,3]}'.hex(), "n": 33}]
+        if kept:
+            seq_data.append(kept[0])
+        for enc in seq_encs:
+            k1, k2 = keys[enc.name], OctKey.import_key(bytes(rng.randrange(256) for _ in range(enc.cek_size // 8)))
+            kw2 = OctKey.import_key(bytes(rng.randrange(256) for _ in range(32)))
+            for d in (seq_data if not ctx.quick else rng.sample(seq_data, 3)):
+                p = data_of(d)
+                # flattened JSON, direct key; third encrypt for another recipient key
+                obj = jwe.FlattenedJSONEncryption({"enc": enc.name, "zip": "DEF", "alg": "dir"}, p,
+                                                  aad=rng.choice([None, b"associated"]))
+                obj.add_recipient({}, k1)
+                snap = snapshot(obj)
+                lab = "%s/flattened-object" % enc.name
+                for step in (1, 2):
+                    seq_step(obj, lambda: jwe.encrypt_json(obj, None), k1, p, d, lab, step, snap)
+                obj.add_recipient({}, k2)
+                seq_step(obj, lambda: jwe.encrypt_json(obj, None), k2, p, d, lab, 3, snapshot(obj) | {"plaintext": snap["plaintext"]})
+                # general JSON, key wrapping, shared unprotected header; recipient set replaced for the third encrypt
+                obj = jwe.GeneralJSONEncryption({"enc": enc.name, "zip": "DEF"}, p, {"cty": "x"}, aad=rng.choice([None, b"aad"]))
+                obj.add_recipient({"alg": "A128KW"}, kw_key)
+                obj.add_recipient({"alg": "A128KW", "kid": "second"}, kw_key)
+                snap = snapshot(obj)
+                lab = "%s/general-object" % enc.name
+                seq_step(obj, lambda: jwe.encrypt_json(obj, None), kw_key, p, d, lab, 1, snap)
+                seq_step(obj, lambda: jwe.encrypt_json(obj, None), kw_key, p, d, lab, 2, snap)
+                obj.recipients = []
+                obj.add_recipient({"alg": "A256KW"}, kw2)
+                seq_step(obj, lambda: jwe.encrypt_json(obj, None), kw2, p, d, lab, 3, snapshot(obj) | {"plaintext": snap["plaintext"]})
+                # compact: the object path (CompactEncryption + attach_recipient + perform_encrypt) ...
+                obj = jwe.CompactEncryption({"enc": enc.name, "zip": "DEF", "alg": "dir"}, p)
+                obj.attach_recipient(k1)
+                snap = snapshot(obj)
+                lab = "%s/compact-object" % enc.name
+
+                def produce_compact():
+                    perform_encrypt(obj, default_registry)
+                    return represent_compact(obj).decode("ascii")
+                for step in (1, 2):
+                    seq_step(obj, produce_compact, k1, p, d, lab, step, snap)
+                # ... and the function path with one protected dict used twice
+                prot = {"alg": "dir", "enc": enc.name, "zip": "DEF"}
+                prot0 = copy.deepcopy(prot)
+                for step in (1, 2):
+                    ins.reset()
+                    r = call(jwe.encrypt_compact, prot, p, k1)
+                    bump("seq_encrypt")
+                    if r[0] != "ok" or prot != prot0:
+                        ctx.violation({"kind": "object-mutated", "field": "protected"},
+                                      "%s: encrypt_compact #%d raised or changed the caller's protected header: %r" % (enc.name, step, prot),
+                                      {"fn": "sequence", "label": "%s/compact-function" % enc.name, "step": step, "data": d})
+                        break
+                    check_jwe(r[1], k1, p if len(p) <= LIMIT else None, len(p), "%s/compact-function/#%d" % (enc.name, step),
+                              {"sequence": "compact-function", "step": step, "data": d, "enc": enc.name, "ser": "seq"}, coq=False)
+        tick("G3")
         # the 64 MiB / 512 MiB expansion through a JWE (in-process; memory measured above)
         token, key = jwe_encrypt(encs[0], "compact", b"x", stream=huge_raw)
         check_jwe(token, key, None, zn, "%s/compact/huge" % encs[0].name,
@@ -1311,6 +1435,30 @@ def run(ctx):
         ctx.coqchk()
 
 
+def replay_sequence(enc_name, d, steps):
+    """encrypt one FlattenedJSONEncryption object `steps` times, decrypt the last result"""
+    from joserfc import jwe
+    from joserfc.jwk import OctKey
+    from joserfc.rfc7516.registry import JWERegistry
+    enc = JWERegistry.algorithms["enc"][enc_name]
+    key = OctKey.import_key(bytes(range(enc.cek_size // 8)))
+    p = data_of(d)
+    obj = jwe.FlattenedJSONEncryption({"enc": enc.name, "zip": "DEF", "alg": "dir"}, p)
+    obj.add_recipient({}, key)
+    bad = []
+    for k in range(max(2, int(steps))):
+        token = jwe.encrypt_json(obj, None)
+        if obj.plaintext != p:
+            bad.append("after encrypt #%d the object's plaintext has %d octets (was %d)" % (k + 1, len(obj.plaintext), len(p)))
+        out = call(jwe.decrypt_json, json.loads(json.dumps(token)), key)
+        res = ("ok %d octets" % len(out[1].plaintext)) if out[0] == "ok" else exn_class(out[1])
+        if len(p) <= LIMIT and (out[0] != "ok" or out[1].plaintext != p):
+            bad.append("decrypt of token #%d gives %s, not the %d-octet plaintext" % (k + 1, res, len(p)))
+        print("encrypt #%d -> decrypt: %s" % (k + 1, res))
+    print("verdict:", bad)
+    return 1 if bad else 0
+
+
 def replay(path):
     from joserfc.rfc7518.jwe_zips import DeflateZipModel
     r = json.load(open(path))["replay"]
@@ -1340,6 +1488,9 @@ def replay(path):
         good = o == ("ok", p) and d.eof and not d.unused_data and not c.startswith(ZHEAD)
         print("compress |p|=%d -> head %s raw-stream=%r" % (len(p), c[:8].hex(), good))
         return 0 if good else 1
+    if fn == "sequence":
+        enc_name = r["label"].split("/")[0]
+        return replay_sequence(enc_name, r["data"], r.get("step", 2))
     if fn == "jwe":
         # re-build the token with fresh keys (same enc / serialization / stream / tampering) and decrypt it
         import random
@@ -1347,6 +1498,8 @@ def replay(path):
         from joserfc.jwk import OctKey
         from joserfc.rfc7516.registry import JWERegistry
         desc = r["desc"]
+        if desc.get("sequence"):
+            return replay_sequence(desc["enc"], desc["data"], desc.get("step", 2))
         enc = JWERegistry.algorithms["enc"][desc["enc"]]
         rnd = random.Random(1)
         key = OctKey.import_key(bytes(rnd.randrange(256) for _ in range(enc.cek_size // 8)))
